@@ -3,6 +3,7 @@ package props
 import (
 	"context"
 	"fmt"
+	"os"
 	"sort"
 	"strings"
 	"sync"
@@ -52,6 +53,61 @@ func isolationAlphabet() []lx.Op {
 	return out
 }
 
+// isoFeatureCfgs: l1 and l2 share bucket b1 as in the main configuration, but l1 is created
+// with a non-default feature set (l2 keeps the default one): the read and write paths of
+// l1 then go through the branches the default set never takes (current metadata instead of
+// the metadata history, no moves, no effective volumes, no log hash) while the bucket
+// tables hold the rows of a default-feature neighbour using the same addresses.
+func isoFeatureCfgs(thorough bool) [][]lx.LedgerSpec {
+	minimal := map[string]string{"MOVES_HISTORY": "OFF", "MOVES_HISTORY_POST_COMMIT_EFFECTIVE_VOLUMES": "DISABLED", "HASH_LOGS": "DISABLED", "ACCOUNT_METADATA_HISTORY": "DISABLED", "TRANSACTION_METADATA_HISTORY": "DISABLED"}
+	with := func(base map[string]string, kv ...string) map[string]string {
+		m := map[string]string{}
+		for k, v := range base {
+			m[k] = v
+		}
+		for i := 0; i+1 < len(kv); i += 2 {
+			m[kv[i]] = kv[i+1]
+		}
+		return m
+	}
+	// quick: the metadata history of accounts alone, everything off but the moves, everything
+	// off (every feature is off in one of them, the date-bounded reads are answered in the
+	// first two and refused in the third); thorough: also each other feature alone
+	sets := []map[string]string{
+		{"ACCOUNT_METADATA_HISTORY": "DISABLED"},
+		with(minimal, "MOVES_HISTORY", "ON"),
+		minimal,
+	}
+	if thorough {
+		sets = append(sets,
+			map[string]string{"TRANSACTION_METADATA_HISTORY": "DISABLED"},
+			map[string]string{"MOVES_HISTORY": "OFF", "MOVES_HISTORY_POST_COMMIT_EFFECTIVE_VOLUMES": "DISABLED"},
+			map[string]string{"MOVES_HISTORY_POST_COMMIT_EFFECTIVE_VOLUMES": "DISABLED"},
+			map[string]string{"HASH_LOGS": "DISABLED"},
+			map[string]string{"HASH_LOGS": "ASYNC"})
+	}
+	var out [][]lx.LedgerSpec
+	for _, f := range sets {
+		out = append(out, []lx.LedgerSpec{{Name: "l1", Bucket: "b1", Features: f}, {Name: "l2", Bucket: "b1"}})
+	}
+	if thorough {
+		// and the mirror image of the first one: the odd ledger is the second of the bucket
+		out = append(out, []lx.LedgerSpec{{Name: "l1", Bucket: "b1"}, {Name: "l2", Bucket: "b1", Features: sets[0]}})
+	}
+	return out
+}
+
+// isoCfgLabel names a configuration ("" for the main, all-default one).
+func isoCfgLabel(cfg []lx.LedgerSpec) string {
+	var parts []string
+	for _, l := range cfg {
+		if len(l.Features) > 0 {
+			parts = append(parts, l.Name+"{"+featLabel(l.Features)+"}")
+		}
+	}
+	return strings.Join(parts, "+")
+}
+
 // isoBucketOp: the operation acts on a whole bucket, i.e. on every ledger of it.
 func isoBucketOp(o lx.Op) bool { return o.Kind == "deletebucket" || o.Kind == "restorebucket" }
 
@@ -90,6 +146,47 @@ type isoOutcomes struct {
 	besideDeletedEmpty int64 // ... of those, the routable ledger has no row of its own (every row it returns is foreign)
 	restoredNonEmpty   int64 // a non-empty ledger read in full after its bucket was soft-deleted and restored
 	goneSkipped        int64 // a soft-deleted ledger left out of the read oracle (the API cannot route it)
+	// filtered / date-bounded read set (lx.CheckFiltered), per configuration label
+	filtered map[string]*isoFiltered
+}
+
+// isoFiltered tallies the filtered read set in one configuration. "beside" = on a ledger
+// whose bucket holds, for another ledger, an accounts row of an address the ledger itself
+// uses (the situation in which a join that forgets the ledger sees foreign rows).
+type isoFiltered struct {
+	lx.FilteredTally
+	NonEmptyBeside       int64 `json:"non_empty_answers_beside_a_neighbour_owning_the_same_address"`
+	CurrentMetaPITBeside int64 `json:"date_bounded_answers_from_current_metadata_beside_such_a_neighbour"`
+	EmptyBesideMatching  int64 `json:"empty_answers_while_the_neighbour_s_same_address_matches_the_filter"`
+}
+
+func (io *isoOutcomes) tallyFiltered(cfg string, t lx.FilteredTally, beside, foreignMatch bool) {
+	io.Lock()
+	defer io.Unlock()
+	f := io.filtered[cfg]
+	if f == nil {
+		f = &isoFiltered{}
+		io.filtered[cfg] = f
+	}
+	f.FilteredTally.Add(t)
+	if beside {
+		f.NonEmptyBeside += t.NonEmpty
+		f.CurrentMetaPITBeside += t.CurrentMetaPIT
+	}
+	if foreignMatch {
+		f.EmptyBesideMatching++
+	}
+}
+
+// isoFilters is the metadata-filter menu of the filtered read set: the alphabet writes
+// owner=<ledger> on account a and who=<ledger> on a transaction, so the values are the
+// names of the ledgers, plus the existence of the key.
+func isoFilters(key string) []lx.MetaFilter {
+	out := []lx.MetaFilter{{Key: key}}
+	for _, l := range isoLedgers {
+		out = append(out, lx.MetaFilter{Key: key, Value: l})
+	}
+	return out
 }
 
 // tally classifies one evaluation of the read oracle with respect to the bucket lifecycle.
@@ -130,6 +227,8 @@ func (io *isoOutcomes) tally(s *lx.StepInfo) {
 }
 
 type isoOutcome struct {
+	cfg         string // label of the configuration ("" = all ledgers with the default features)
+	ledgers     []lx.LedgerSpec
 	path        []lx.Op
 	class, full string
 	zeroRows    map[string]string // ledger -> its (0,0) volumes rows no posting of it explains
@@ -137,12 +236,12 @@ type isoOutcome struct {
 
 const isoZeroRow = "vol:unexpected:cur:zero-row"
 
-func isoKey(path []lx.Op) string {
+func isoKey(cfg string, path []lx.Op) string {
 	parts := make([]string, len(path))
 	for i, o := range path {
 		parts[i] = o.Ledger + "/" + o.String()
 	}
-	return strings.Join(parts, ",")
+	return cfg + "#" + strings.Join(parts, ",")
 }
 
 func (io *isoOutcomes) record(s *lx.StepInfo, zero map[string][]string) {
@@ -171,7 +270,8 @@ func (io *isoOutcomes) record(s *lx.StepInfo, zero map[string][]string) {
 	}
 	io.Lock()
 	defer io.Unlock()
-	k := isoKey(s.Path)
+	cfg := isoCfgLabel(s.Ledgers)
+	k := isoKey(cfg, s.Path)
 	if prev := io.byPath[k]; prev != nil {
 		// second evaluation of the same sequence (freshly attached process): keep both views
 		for l, rows := range prev.zeroRows {
@@ -180,12 +280,12 @@ func (io *isoOutcomes) record(s *lx.StepInfo, zero map[string][]string) {
 			}
 		}
 	}
-	io.byPath[k] = &isoOutcome{path: s.Path, class: class, full: sb.String(), zeroRows: zr}
+	io.byPath[k] = &isoOutcome{cfg: cfg, ledgers: s.Ledgers, path: s.Path, class: class, full: sb.String(), zeroRows: zr}
 }
 
 // compare is the cross-path half of the C19 oracle: a write on a ledger is refused or
 // accepted, and returns the transaction it returns, whatever was written on the others.
-func (io *isoOutcomes) compare(r *ev.Run, total *lx.SeqStats, cov ev.Coverage, ledgers []lx.LedgerSpec) {
+func (io *isoOutcomes) compare(r *ev.Run, total *lx.SeqStats, cov ev.Coverage) {
 	io.Lock()
 	defer io.Unlock()
 	keys := make([]string, 0, len(io.byPath))
@@ -202,6 +302,11 @@ func (io *isoOutcomes) compare(r *ev.Run, total *lx.SeqStats, cov ev.Coverage, l
 	multi := map[string]int64{}
 	for _, k := range keys {
 		got := io.byPath[k]
+		ledgers := got.ledgers
+		in := ""
+		if got.cfg != "" {
+			in = " [configuration " + got.cfg + "]"
+		}
 		last := got.path[len(got.path)-1]
 		var own []lx.Op
 		fundedNeighbour := false
@@ -229,7 +334,7 @@ func (io *isoOutcomes) compare(r *ev.Run, total *lx.SeqStats, cov ev.Coverage, l
 			}
 			want := ""
 			if len(proj) > 0 {
-				alone := io.byPath[isoKey(proj)]
+				alone := io.byPath[isoKey(got.cfg, proj)]
 				if alone == nil {
 					continue
 				}
@@ -238,7 +343,7 @@ func (io *isoOutcomes) compare(r *ev.Run, total *lx.SeqStats, cov ev.Coverage, l
 			zeroCompared++
 			if got.zeroRows[l] != want {
 				differing++
-				r.Violation("C19:iso:vol:zero-row:depends-on-other-ledger", fmt.Sprintf("after %v ledger %s lists the volumes rows [%s] that none of its postings explains; after its own operations alone (%v) it lists [%s]", opNamesOf2(got.path), l, got.zeroRows[l], opNamesOf2(proj), want),
+				r.Violation("C19:iso:vol:zero-row:depends-on-other-ledger", fmt.Sprintf("after %v"+in+" ledger %s lists the volumes rows [%s] that none of its postings explains; after its own operations alone (%v) it lists [%s]", opNamesOf2(got.path), l, got.zeroRows[l], opNamesOf2(proj), want),
 					map[string]any{"ledgers": ledgers, "ops": got.path, "projection": proj})
 			}
 		}
@@ -250,7 +355,7 @@ func (io *isoOutcomes) compare(r *ev.Run, total *lx.SeqStats, cov ev.Coverage, l
 		if len(own) == len(got.path) {
 			continue
 		}
-		alone := io.byPath[isoKey(own)]
+		alone := io.byPath[isoKey(got.cfg, own)]
 		if alone == nil {
 			notEnumerated++ // only on a run cut by its budget
 			continue
@@ -267,7 +372,7 @@ func (io *isoOutcomes) compare(r *ev.Run, total *lx.SeqStats, cov ev.Coverage, l
 		if alone.class == got.class {
 			sig = fmt.Sprintf("C19:iso:outcome:%s:%s:result-differs", last.Kind, got.class)
 		}
-		r.Violation(sig, fmt.Sprintf("after %v the last operation returned [%s]; without the operations of the other ledgers (%v) it returns [%s]", opNamesOf2(got.path), got.full, opNamesOf2(own), alone.full),
+		r.Violation(sig, fmt.Sprintf("after %v"+in+" the last operation returned [%s]; without the operations of the other ledgers (%v) it returns [%s]", opNamesOf2(got.path), got.full, opNamesOf2(own), alone.full),
 			map[string]any{"ledgers": ledgers, "ops": got.path, "projection": own})
 	}
 	cov["cross_ledger_outcome_comparisons"] = compared
@@ -283,8 +388,38 @@ func (io *isoOutcomes) compare(r *ev.Run, total *lx.SeqStats, cov ev.Coverage, l
 		"soft_deleted_ledgers_left_out_of_the_read_oracle_(not_routable_through_the_API)":         io.goneSkipped,
 		"operations_addressed_to_a_ledger_that_is_not_routable_(not_created_yet_or_soft_deleted)": total.Outcomes["post:no_such_ledger"] + total.Outcomes["script:no_such_ledger"] + total.Outcomes["revert:no_such_ledger"] + total.Outcomes["accmeta:no_such_ledger"],
 	}
+	filt := map[string]*isoFiltered{}
+	for k, v := range io.filtered {
+		if k == "" {
+			k = "default features"
+		}
+		filt[k] = v
+	}
+	cov["filtered_read_set_by_configuration"] = filt
 	if r.ViolationCount() > 0 || total.DepthDone < 2 {
 		return
+	}
+	// the filtered read set must have run, in EVERY configuration, on a ledger whose bucket
+	// neighbour owns the same address, with non-empty and with must-stay-empty answers; a
+	// ledger without ACCOUNT_METADATA_HISTORY must have answered date-bounded filtered reads
+	// from its current metadata there; a ledger without MOVES_HISTORY must have refused them
+	var curMeta, curMetaMustStayEmpty, rejected int64
+	for k, v := range io.filtered {
+		name := k
+		if name == "" {
+			name = "default features"
+		}
+		if v.NonEmptyBeside == 0 || v.EmptyBesideMatching == 0 || v.Selective == 0 {
+			r.EngineError(fmt.Sprintf("vacuous: filtered read set in configuration %s: non-empty answers beside a neighbour owning the same address %d, selective answers %d, answers that must stay empty although the neighbour's row matches %d", name, v.NonEmptyBeside, v.Selective, v.EmptyBesideMatching))
+		}
+		curMeta += v.CurrentMetaPIT
+		if v.CurrentMetaPIT > 0 {
+			curMetaMustStayEmpty += v.EmptyBesideMatching
+		}
+		rejected += v.Rejected
+	}
+	if len(io.filtered) < 2 || curMeta == 0 || curMetaMustStayEmpty == 0 || rejected == 0 {
+		r.EngineError(fmt.Sprintf("vacuous: feature configurations of the filtered read set: %d configurations; on ledgers without ACCOUNT_METADATA_HISTORY: non-empty date-bounded answers from the current metadata %d, answers that must stay empty although the neighbour's row matches %d; date-bounded reads refused for a missing feature %d", len(io.filtered), curMeta, curMetaMustStayEmpty, rejected))
 	}
 	// the bucket lifecycle must really have been exercised: [write on l3, soft delete of b2,
 	// create l4 in b2] has length 3, and so has [write on l3, soft delete, restore]
@@ -310,6 +445,16 @@ func (io *isoOutcomes) compare(r *ev.Run, total *lx.SeqStats, cov ev.Coverage, l
 	}
 }
 
+// isoFeaturesOf renders the non-default features of ledger n in the configuration.
+func isoFeaturesOf(cfg []lx.LedgerSpec, n string) string {
+	for _, l := range cfg {
+		if l.Name == n && len(l.Features) > 0 {
+			return " {" + featLabel(l.Features) + "}"
+		}
+	}
+	return ""
+}
+
 func opNamesOf2(path []lx.Op) []string {
 	out := make([]string, len(path))
 	for i, o := range path {
@@ -320,12 +465,116 @@ func opNamesOf2(path []lx.Op) []string {
 
 func init() {
 	isoCfg := []lx.LedgerSpec{{Name: "l1", Bucket: "b1"}, {Name: "l2", Bucket: "b1"}, {Name: "l3", Bucket: "b2"}}
-	isoOut := &isoOutcomes{byPath: map[string]*isoOutcome{}}
+	isoOut := &isoOutcomes{byPath: map[string]*isoOutcome{}, filtered: map[string]*isoFiltered{}}
+	thorough := os.Getenv("VERIF_TIER") == "thorough"
+	// the operations of the two ledgers sharing b1 (the alphabet of the feature configurations)
+	// plus, per ledger, one write that gives account a both volumes and the metadata
+	// owner=<ledger> (account metadata sent with the transaction), so that sequences one
+	// operation shorter than in the main configuration reach «my account a matches the
+	// filter and holds volumes, the neighbour's account a holds other metadata»
+	var b1Alphabet []lx.Op
+	for _, o := range isolationAlphabet() {
+		if isoBucket[o.Ledger] == "b1" && o.Kind != "createledger" {
+			b1Alphabet = append(b1Alphabet, o)
+		}
+	}
+	for _, l := range []string{"l1", "l2"} {
+		b1Alphabet = append(b1Alphabet, lx.Op{Kind: "post", Ledger: l, Name: "fund+owner", Postings: []lx.P{p("world", "a", "USD", "100")},
+			AccMeta: map[string]map[string]string{"a": {"owner": l}}})
+	}
+	accFilters, txFilters := isoFilters("owner"), isoFilters("who")
+	// filteredReads is the filtered / date-bounded part of the read oracle for ledger n.
+	filteredReads := func(ctx context.Context, s *lx.StepInfo, n string, rep *lx.Report) {
+		// the filtered and date-bounded reads: volumes, aggregated balances, accounts
+		// and transactions under a metadata filter, without bound, with an end, a
+		// start, both, on both kinds of date — against this ledger's own reference
+		// (menu of ledger n: the key exists, the key holds n's name, the key holds the
+		// name of each other ledger of n's bucket).
+		// Isolation is at stake only where foreign rows exist: the set is read on a ledger
+		// when another ledger of its bucket — routable or soft-deleted — has written
+		// something (what a filter selects on a ledger alone with its own rows is C20's
+		// subject). Quick tier: from the live process only (the unfiltered reads above are
+		// made from both; a join that forgets the ledger does not depend on the process).
+		foreign := false
+		for g, gref := range s.Refs {
+			if g != n && s.Buckets[g] == s.Buckets[n] && (len(gref.Accs) > 0 || len(gref.Logs) > 0) {
+				foreign = true
+			}
+		}
+		if !foreign || (s.Fresh && !thorough) {
+			return
+		}
+		main := isoCfgLabel(s.Ledgers) == ""
+		level := 1
+		if thorough && (!main || len(s.Path) <= 2) {
+			level = 2
+		}
+		if main && len(s.Path) > 2 {
+			// longer sequences of the main configuration: only the ledgers of the bucket the
+			// last operation touched (the others were read in the same bucket state after the
+			// sequence without its last operation), live process, and in the quick tier the
+			// volumes listing only
+			touched := isoBucket[s.Last.Ledger]
+			if isoBucketOp(s.Last) || s.Last.Kind == "createledger" {
+				touched = s.Last.Address
+			}
+			if s.Fresh || s.Buckets[n] != touched {
+				return
+			}
+			if !thorough {
+				level = 0
+			}
+		}
+		var af, tf []lx.MetaFilter
+		for i, mf := range accFilters {
+			if mf.Value == "" || mf.Value == n || isoBucket[mf.Value] == s.Buckets[n] {
+				af, tf = append(af, mf), append(tf, txFilters[i])
+			}
+		}
+		fsub := &lx.Report{}
+		ft := lx.CheckFiltered(ctx, s.Ctrls[n], s.Refs[n], af, tf, level, fsub)
+		for _, m := range fsub.Items {
+			rep.Add("iso:"+m.Sig, "ledger %s%s: %s", n, isoFeaturesOf(s.Ledgers, n), m.What)
+		}
+		beside, foreignMatch := false, false
+		for g, gref := range s.Refs {
+			if g == n || s.Buckets[g] != s.Buckets[n] {
+				continue
+			}
+			for addr, ga := range gref.Accs {
+				if s.Refs[n].Accs[addr] != nil {
+					beside = true
+					if _, has := ga.Meta["owner"]; has && s.Refs[n].Accs[addr].Meta["owner"] == "" && len(s.Refs[n].Volumes(nil)[addr]) > 0 {
+						// the neighbour's row of the same address matches exists(owner) and
+						// owner=<neighbour>, this ledger's own row matches neither, and this
+						// ledger has volumes on the address: the filtered volumes of THIS
+						// ledger must stay empty
+						foreignMatch = true
+					}
+				}
+			}
+		}
+		isoOut.tallyFiltered(isoCfgLabel(s.Ledgers), ft, beside, foreignMatch)
+	}
 	registerSeq(seqCheck{
 		id: "C19", quick: 110 * time.Second, thor: 15 * time.Minute, depthQ: 3, depthT: 4,
 		alphabet: isolationAlphabet(), restart: true,
-		configs: [][]lx.LedgerSpec{isoCfg},
-		sigs:    []string{"iso:", "ref:"},
+		// the feature configurations first: they are small (two ledgers, their 12 operations,
+		// one level less deep) and a run cut by its budget must have covered them
+		configs: append(isoFeatureCfgs(thorough), isoCfg),
+		cfgAlphabet: func(cfg []lx.LedgerSpec) []lx.Op {
+			if isoCfgLabel(cfg) != "" {
+				return b1Alphabet
+			}
+			return isolationAlphabet()
+		},
+		cfgDepth: func(cfg []lx.LedgerSpec, depth int) int {
+			if isoCfgLabel(cfg) != "" {
+				return depth - 1
+			}
+			return depth
+		},
+		sigs: []string{"iso:", "ref:"},
 		check: func(ctx context.Context, s *lx.StepInfo, rep *lx.Report) {
 			zero := map[string][]string{}
 			var names []string
@@ -347,6 +596,7 @@ func init() {
 					}
 					rep.Add("iso:"+m.Sig, "ledger %s: %s", n, m.What)
 				}
+				filteredReads(ctx, s, n, rep)
 				// schemas listing must be empty everywhere (no schema is ever inserted here)
 				if sc, err := s.Ctrls[n].ListSchemas(ctx, common.InitialPaginatedQuery[any]{PageSize: 10}); err == nil && len(sc.Data) != 0 {
 					rep.Add("iso:schemas", "ledger %s lists %d schemas", n, len(sc.Data))
@@ -355,9 +605,9 @@ func init() {
 			isoOut.tally(s)
 			isoOut.record(s, zero)
 		},
-		post: func(r *ev.Run, total *lx.SeqStats, cov ev.Coverage) { isoOut.compare(r, total, cov, isoCfg) },
+		post: func(r *ev.Run, total *lx.SeqStats, cov ev.Coverage) { isoOut.compare(r, total, cov) },
 		need: []string{"post:ok", "post:insufficient_funds", "script:ok", "script:insufficient_funds", "revert:ok", "accmeta:ok", "createledger:ok", "deletebucket:ok", "restorebucket:ok"},
-		rule: "ledgers l1,l2 share bucket b1, l3 is alone in b2 (alone-in-bucket optimisation active) until the operation `create l4 in b2` runs; every sequence of length<=depth over the same writes on each ledger (same addresses, same reference r, same idempotency key k, reverts of tx 1; on the two ledgers sharing b1 also a transaction funding accounts a and b, with 10 each on l1 and 100 each on l2 so that the same accounts hold different balances, and a Numscript send of 50 drawing on the two bounded sources {@a @b}, whose funds check reads two balances at once: l1 alone cannot pay it, l2 alone can) plus the mid-history ledger creation, plus the two system-level bucket operations on b2: soft delete (DELETE /v2/_/buckets/b2: every ledger of b2 stops being routable, all its rows stay in the bucket schema) and restore (POST /v2/_/buckets/b2/restore), in every order with the creation of l4 and the writes (l4 created beside a soft-deleted non-empty l3, l3 restored beside an l4 created meanwhile, l3 and l4 deleted and restored together, ...). After a bucket operation the explorer asks the system store, for every ledger, whether it can still be routed (as the API's ledger middleware does for every request): operations on an unroutable ledger are not executed (404), a ledger that is routable again is re-opened. (1) after each sequence EVERY read API of EVERY ROUTABLE ledger must equal that ledger's own reference model (a soft-deleted ledger's reads are out of scope: it is gone for the API; a ledger created in the bucket of soft-deleted ledgers must read as its own history says, i.e. empty until it is written to; a restored ledger must read exactly as before its deletion), from the live controllers (whose stores share the per-bucket aloneInBucket flag) and from a freshly attached process; (2) what the last operation of each sequence returned (accepted / refused with which error / idempotency hit, log id and type, transaction id, postings, reference, metadata, reverted id; dates aside) must equal what it returns in the same sequence WITHOUT the operations of the other ledgers (its projection, itself an enumerated sequence; the soft deletes and restores of a bucket belong to the projection of every ledger of that bucket): e.g. insufficient funds on l1 must not depend on the balances of the same accounts on l2; (3) a (0,0) volumes row of a pair no posting of the ledger touches (the ledger's funds check materialises one for each source it consulted) must be there exactly when the ledger's own operations alone leave it",
+		rule: "ledgers l1,l2 share bucket b1, l3 is alone in b2 (alone-in-bucket optimisation active) until the operation `create l4 in b2` runs; every sequence of length<=depth over the same writes on each ledger (same addresses, same reference r, same idempotency key k, reverts of tx 1; on the two ledgers sharing b1 also a transaction funding accounts a and b, with 10 each on l1 and 100 each on l2 so that the same accounts hold different balances, and a Numscript send of 50 drawing on the two bounded sources {@a @b}, whose funds check reads two balances at once: l1 alone cannot pay it, l2 alone can) plus the mid-history ledger creation, plus the two system-level bucket operations on b2: soft delete (DELETE /v2/_/buckets/b2: every ledger of b2 stops being routable, all its rows stay in the bucket schema) and restore (POST /v2/_/buckets/b2/restore), in every order with the creation of l4 and the writes (l4 created beside a soft-deleted non-empty l3, l3 restored beside an l4 created meanwhile, l3 and l4 deleted and restored together, ...). After a bucket operation the explorer asks the system store, for every ledger, whether it can still be routed (as the API's ledger middleware does for every request): operations on an unroutable ledger are not executed (404), a ledger that is routable again is re-opened. (1) after each sequence EVERY read API of EVERY ROUTABLE ledger must equal that ledger's own reference model (a soft-deleted ledger's reads are out of scope: it is gone for the API; a ledger created in the bucket of soft-deleted ledgers must read as its own history says, i.e. empty until it is written to; a restored ledger must read exactly as before its deletion), from the live controllers (whose stores share the per-bucket aloneInBucket flag) and from a freshly attached process; (2) what the last operation of each sequence returned (accepted / refused with which error / idempotency hit, log id and type, transaction id, postings, reference, metadata, reverted id; dates aside) must equal what it returns in the same sequence WITHOUT the operations of the other ledgers (its projection, itself an enumerated sequence; the soft deletes and restores of a bucket belong to the projection of every ledger of that bucket): e.g. insufficient funds on l1 must not depend on the balances of the same accounts on l2; (3) a (0,0) volumes row of a pair no posting of the ledger touches (the ledger's funds check materialises one for each source it consulted) must be there exactly when the ledger's own operations alone leave it; (4) FILTERED AND DATE-BOUNDED READS (filtered_read_set_by_configuration): after each sequence, on every routable ledger beside which another ledger of the same bucket (routable or soft-deleted) has written something, the reads whose SQL joins the ledger's rows with the bucket's accounts / accounts_metadata tables must equal the ledger's own reference: the volumes listing under each metadata filter of the menu {the key owner exists, owner=<this ledger>, owner=<each other ledger of the bucket>} with no date bound, with start+end on effective dates and with an end on insertion dates (bounds outside the history: the fold is the whole history, the metadata the current one), and — for sequences of at most two operations and in the feature configurations — also the aggregated balances (no bound; end on insertion dates), the accounts listing (no bound; point in time) under the same filters and the transactions listing under {who exists, who=<ledger>} (thorough: every shape — no bound, end, start, both, each on effective and insertion dates — and the end also at every recorded date, where the metadata is the revision of that date or, without ACCOUNT_METADATA_HISTORY, the current one; from the live and from the fresh process). In the main configuration, for sequences longer than two operations, the set is read on the ledgers of the bucket the last operation touched (the others were read in the same bucket state one operation earlier), from the live process. FEATURE CONFIGURATIONS, explored before the main one at each depth, one level less deep (quick: depth 2): l1 and l2 share b1, l2 has the default features and l1 is created with ACCOUNT_METADATA_HISTORY=DISABLED / the minimal feature set with MOVES_HISTORY=ON / the minimal feature set (thorough: also TRANSACTION_METADATA_HISTORY=DISABLED, MOVES_HISTORY=OFF+effective volumes DISABLED, effective volumes DISABLED alone, HASH_LOGS=DISABLED, HASH_LOGS=ASYNC, and the first one mirrored on l2); alphabet: the 12 operations of l1 and l2 plus, per ledger, a transaction world→a carrying the account metadata owner=<ledger> (so that two operations reach «my account a holds volumes and matches the filter, the neighbour's account a holds other metadata»); same oracles (1)–(4), a date-bounded read on a ledger without MOVES_HISTORY must be refused with a missing-feature error. Vacuity guards of (4): in every configuration non-empty, selective and must-stay-empty-although-the-neighbour's-row-of-the-same-address-matches answers were compared; on a ledger without ACCOUNT_METADATA_HISTORY date-bounded filtered volumes were answered from the current metadata; date-bounded reads were refused on a ledger without MOVES_HISTORY",
 	})
 
 	// ---------- C35 ----------
